@@ -99,15 +99,7 @@ func DecodeContainerChildren(hdr BoxHeader, startPos, endPos uint64, r io.Reader
 	children := make([]Box, 0, 8)
 	pos := startPos
 	for {
-		child, err := DecodeBox(pos, r)
-		if err == io.EOF {
-			return children, nil
-		}
-		if err != nil {
-			return children, err
-		}
-		children = append(children, child)
-		pos += child.Size()
+		// Check before decoding, so that an empty container does not swallow its next sibling
 		if pos == endPos {
 			return children, nil
 		} else if pos > endPos {
@@ -117,6 +109,15 @@ func DecodeContainerChildren(hdr BoxHeader, startPos, endPos uint64, r io.Reader
 			}
 			return nil, fmt.Errorf("non-matching children box sizes, parentSize=%d, %s", endPos-startPos, msg)
 		}
+		child, err := DecodeBox(pos, r)
+		if err == io.EOF {
+			return children, nil
+		}
+		if err != nil {
+			return children, err
+		}
+		children = append(children, child)
+		pos += child.Size()
 	}
 }
 
